@@ -331,6 +331,8 @@ impl Backend {
 
         match mio::net::TcpStream::connect(self.address) {
             Ok(tcp_stream) => {
+                #[cfg(feature = "verif-hooks")]
+                crate::verif::tune_socket(&tcp_stream, "back");
                 //self.retry_policy.succeed();
                 self.inc_connections();
                 // Success registers exactly one new active connection and never
